@@ -238,9 +238,13 @@ class _Win:
             if isinstance(e.func, ast.Name) and e.func.id == 'slice' and len(e.args) == 2:
                 return ('slice', self.ev(f, e.args[0], env, depth), self.ev(f, e.args[1], env, depth))
             t = self.prog.resolve_callable(f, f.module, e.func)
-            if isinstance(t, Func) and t.jit is not None and len(e.args) == 2:
-                self.kcall = (e, t, [self.ev(f, a, env, depth) for a in e.args])
-                return ('kres', None)
+            if isinstance(t, Func) and t.jit is not None and len(e.args) + len(e.keywords) == 2 and len(t.params) == 2:
+                # the scan kernel: arguments bound to its two parameters, positionally or by keyword
+                b = dict(zip(t.params, e.args))
+                b.update({k.arg: k.value for k in e.keywords if k.arg in t.params})
+                if len(b) == 2:
+                    self.kcall = (e, t, [self.ev(f, b[p], env, depth) for p in t.params])
+                    return ('kres', None)
             if isinstance(t, Func) and depth < 3:
                 benv = {}
                 for p, a in list(zip(t.params, e.args)) + [(k.arg, k.value) for k in e.keywords if k.arg]:
